@@ -86,7 +86,7 @@ func allBlocked() bool {
 // quiesce waits until the scenario can make no further progress: every goroutine is blocked,
 // the log did not grow, observed twice in a row. pendingTimers must return true while a timer
 // the scenario depends on may still fire. Returns false if no quiescence within maxWait.
-func quiesce(h *hlog, maxWait time.Duration, pendingTimers func() bool) bool {
+func quiesce(h interface{ len() int }, maxWait time.Duration, pendingTimers func() bool) bool {
 	deadline := time.Now().Add(maxWait)
 	stable := 0
 	last := -1
